@@ -17,6 +17,7 @@ mod c12;
 mod c15;
 mod c10;
 mod c16;
+mod c20;
 
 fn main() {
     common::install_panic_hook();
@@ -41,6 +42,7 @@ fn main() {
         "holo" => c15::run(&args),
         "parallel" | "parallel-child" => c10::run(&args),
         "modgen" => c16::run(&args),
+        "lw" => c20::run(&args),
         s => {
             eprintln!("unknown stream {s}");
             std::process::exit(2);
